@@ -63,7 +63,7 @@ def peek(el):
     return v
 
 
-def execute(kind, path, wcfg, ccfg, rcfg, both, seq, switch_rule="AnyOfMany"):
+def execute(kind, path, wcfg, ccfg, rcfg, both, seq, switch_rule="AnyOfMany", inherited=False):
     """returns observation dict; seq = tuple of 'v1' | 'v2' | 'same'"""
     import indi.message as M
     from indi.device import values as DV
@@ -105,7 +105,7 @@ def execute(kind, path, wcfg, ccfg, rcfg, both, seq, switch_rule="AnyOfMany"):
         if kind == "switch-oneofmany":
             vec["rule"] = "OneOfMany"
             els[1]["default"] = "Off"
-        spec = dict(name="DEV", groups=[dict(attr="g", name="G", vectors=[vec])])
+        spec = dict(name="DEV", groups=[dict(attr="g", name="G", level=0, vectors=[vec])], depth=2 if inherited else 1)
 
         def handlers(defs):
             vd = defs["g"].vectors["v"]
@@ -161,7 +161,8 @@ def execute(kind, path, wcfg, ccfg, rcfg, both, seq, switch_rule="AnyOfMany"):
                 methods["r%d" % i] = on(ea, Read)(h)
             return methods
 
-        cls, defs = D.build_class(spec, handlers=handlers)
+        # inherited: the @on handlers (and the group) are declared in a base class, the device is an instance of a subclass
+        cls, defs = D.build_class(spec, handlers=handlers, handlers_level=0 if inherited else None)
         dev = cls(router=router)
         el = dev.g.v.a
         for step in seq:
@@ -376,16 +377,19 @@ def run_shard(shard):
                 if both and not (wcfg or ccfg):
                     continue
                 for seq in sequences(tier):
-                    obs = execute(kind, path, wcfg, ccfg, rcfg, both, seq)
-                    res["executions"] += 1
-                    res["transitions"] += len(obs["ops"])
-                    res["counters"]["handler_calls"] = res["counters"].get("handler_calls", 0) + sum(len(o["log"]) for o in obs["ops"])
-                    for clause, disc, what in judge(kind, path, wcfg, ccfg, rcfg, both, seq, obs):
-                        key = (clause, disc)
-                        if key in sig:
-                            sig[key]["count"] += 1
-                        else:
-                            sig[key] = {"clause": clause, "disc": disc, "count": 1, "what": "W=%r C=%r R=%r both=%r seq=%r: %s" % (wcfg, ccfg, rcfg, both, seq, what), "replay": dict(kind=kind, path=path, wcfg=wcfg, ccfg=ccfg, rcfg=rcfg, both=both, seq=seq)}
+                    for inherited in (False, True) if (len(seq) == 1 and not both) else (False,):
+                        obs = execute(kind, path, wcfg, ccfg, rcfg, both, seq, inherited=inherited)
+                        res["executions"] += 1
+                        res["transitions"] += len(obs["ops"])
+                        res["counters"]["handler_calls"] = res["counters"].get("handler_calls", 0) + sum(len(o["log"]) for o in obs["ops"])
+                        for clause, disc, what in judge(kind, path, wcfg, ccfg, rcfg, both, seq, obs):
+                            if inherited:
+                                disc += ",inherited-handlers"
+                            key = (clause, disc)
+                            if key in sig:
+                                sig[key]["count"] += 1
+                            else:
+                                sig[key] = {"clause": clause, "disc": disc, "count": 1, "what": "W=%r C=%r R=%r both=%r seq=%r: %s" % (wcfg, ccfg, rcfg, both, seq, what), "replay": dict(kind=kind, path=path, wcfg=wcfg, ccfg=ccfg, rcfg=rcfg, both=both, seq=seq, inherited=inherited)}
     res["states"] = res["executions"]
     res["violations"] = list(sig.values())
     if kind == "text" and path == "client" and wi == 4:
@@ -415,5 +419,6 @@ def _t(x):
 
 def replay(rep):
     a = [rep["kind"], rep["path"], _t(rep["wcfg"]), _t(rep["ccfg"]), _t(rep["rcfg"]), rep["both"], _t(rep["seq"])]
-    obs = execute(*a)
-    return [{"clause": c, "disc": d, "what": w} for c, d, w in judge(*a, obs)]
+    inh = rep.get("inherited", False)
+    obs = execute(*a, inherited=inh)
+    return [{"clause": c, "disc": d + (",inherited-handlers" if inh else ""), "what": w} for c, d, w in judge(*a, obs)]
